@@ -1,6 +1,7 @@
 package main
 
 import (
+	"regexp"
 	"encoding/hex"
 	"fmt"
 	"sort"
@@ -160,7 +161,7 @@ func init() {
 		k2.onlyMsgs = nil
 		k2.ftype = -1
 		return []CaseSet{genRandomStreams(r, "redefinitions-few-types", n, k, "000"), genRandomStreams(r, "redefinitions-any-type", n/2, k2, "000"), genRedefinitions(r, n/2), genUndefinedLocal(r, 400), genChainedUndefined(r, 300)},
-			"random interleavings of definitions and data over all 16 local types with redefinitions switching message, field list, sizes and byte order; chains of redefinitions of one local type differing from the previous definition in exactly one respect (byte order only, one size, one base type, the message, developer fields, field order, nothing); compressed headers sharing slots 0-3; data records for undefined local types; chains in which a later file uses a local type only an earlier file of the chain defined", false
+			"random interleavings of definitions and data over all 16 local types with redefinitions switching message, field list, sizes and byte order; chains of redefinitions of one local type differing from the previous definition in exactly one respect (byte order only, one size, one base type, the message, developer fields, field order, nothing); compressed headers sharing slots 0-3; data records for undefined local types, the first data record of a file included (file_id definition and first record naming different local types, through Decode, DecodeHeaderAndFileID and DecodeChained); chains in which a later file uses a local type only an earlier file of the chain defined", false
 	}
 	propPost["C13"] = postNoPanic
 
@@ -169,8 +170,8 @@ func init() {
 		if thorough {
 			n = 12000
 		}
-		return []CaseSet{genOptionSets(r, n), genManyUnknown(r, 1+n/40)},
-			"streams mixing known and unknown messages and unlisted fields, whole and cut, each under all 8 option combinations. Oracles: messages, error class and bytes consumed identical across option sets; lists sorted; counts equal the model's", false
+		return []CaseSet{genOptionSets(r, n), genManyUnknown(r, 1+n/40), genUnknownChains(r, 1+n/10)},
+			"streams mixing known and unknown messages and unlisted fields, whole and cut, each under all 8 option combinations; chains of 2-4 files with different sets of unknown message numbers and unlisted fields through DecodeChained under the list-producing option sets (every file's lists are its own). Oracles: messages, error class and bytes consumed identical across option sets; lists sorted; counts equal the model's", false
 	}
 	propPost["C16"] = postC16
 
@@ -380,9 +381,38 @@ func postC11(res *RunResult) {
 	}
 	type dval struct{ dump, tag, c, out string }
 	firstDelivery := map[dkey]dval{}
+	// the File returned with an error is determined by the records that are complete in the bytes
+	// read: two cuts (or faults) of the same stream behind the same last complete data record — one
+	// exactly on the record boundary, one inside the next record, one inside a later definition —
+	// must return the same messages
+	type ckey struct {
+		opts, prefix string
+		n            int
+	}
+	sameComplete := map[ckey]dval{}
+	stripLists := regexp.MustCompile(`;UM[^;]*;UF[^;]*`)
 	for i, c := range res.Stats.cases {
 		if res.Stats.setOf[i] != "cuts-and-faults" {
 			continue
+		}
+		if dc, ok := parseDecCase(c); ok && dc.entry == "decode" {
+			if dr, ok2 := parseDecRes(res.Stats.impl[i]); ok2 && dr.tag != "ok" && !strings.HasPrefix(res.Stats.impl[i], "panic") {
+				if fl, okf := frameLen(dc.data); !okf || fl > len(dc.data) { // cut inside the frame
+					n, end := completeDataRecordsEnd(dc.data)
+					if n >= 1 && end <= len(dc.data) {
+						k := ckey{dc.opts, string(dc.data[:end]), n}
+						msgs := stripLists.ReplaceAllString(dr.dump, "")
+						if prev, seen := sameComplete[k]; seen {
+							if prev.dump != msgs {
+								addViolation(res, c, res.Stats.impl[i], fmt.Sprintf("two cuts of one stream behind the same %d complete data records return different Files: %s; other cut: %s",
+									n, firstDiff(prev.dump, msgs), clipS(prev.c)))
+							}
+						} else {
+							sameComplete[k] = dval{msgs, dr.tag, c, res.Stats.impl[i]}
+						}
+					}
+				}
+			}
 		}
 		dc, ok := parseDecCase(c)
 		if !ok {
@@ -478,6 +508,12 @@ func postC16(res *RunResult) {
 				// sortedness of the lists
 				if !sortedList(s[2:]) {
 					addViolation(res, c, res.Stats.impl[i], "unknown-item list not sorted: "+s)
+				}
+				// an entry is there because a record was counted: no entry has count 0
+				for _, e := range strings.Split(strings.Trim(s[2:], "[]"), ".") {
+					if strings.HasSuffix(e, "=0") {
+						addViolation(res, c, res.Stats.impl[i], "unknown-item list holds an entry with count 0 (no record of this file carried it): "+e)
+					}
 				}
 				if (strings.HasPrefix(s, "UM") && dc.opts[2] == '0' || strings.HasPrefix(s, "UF") && dc.opts[1] == '0') && s[2:] != "n" {
 					addViolation(res, c, res.Stats.impl[i], "list reported although the option is off")
@@ -577,6 +613,29 @@ func genUndefinedLocal(r *rng, n int) CaseSet {
 		}
 		w.data(l, []byte{70})
 		cs.Cases = append(cs.Cases, decCase("decode", "000", "-", "-", frame(w.Bytes(), defaultFrame())))
+	}
+	// the very first data record: the file_id definition is written for local type l1, the record
+	// that follows it names l2 — when they differ the record has no definition (an error for every
+	// entry point that reads it), when they agree on a type other than 0 the file is valid
+	for i := 0; i < n/2; i++ {
+		w := &sw{}
+		l1, l2 := byte(r.intn(16)), byte(r.intn(16))
+		if r.chance(40) {
+			l2 = l1
+		}
+		w.define(defn{local: l1, arch: byte(r.intn(2)), global: 0, fields: []fdef{{0, 1, 0x00}}})
+		if l2 < 4 && r.chance(25) {
+			w.cdata(l2, byte(r.intn(32)), []byte{4})
+		} else {
+			w.data(l2, []byte{4})
+		}
+		if r.chance(60) {
+			l := byte(r.intn(16))
+			w.define(defn{local: l, global: 20, fields: []fdef{{3, 1, 2}}})
+			w.data(l, []byte{70})
+		}
+		e := []string{"decode", "headerfid", "chained", "decode"}[i%4]
+		cs.Cases = append(cs.Cases, decCase(e, "000", "-", "-", frame(w.Bytes(), randFrame(r))))
 	}
 	return cs
 }
@@ -687,6 +746,56 @@ func genManyUnknown(r *rng, n int) CaseSet {
 		data := frame(b.Bytes(), randFrame(r))
 		for _, o := range []string{"011", "111", "001", "010"} {
 			cs.Cases = append(cs.Cases, decCase("decode", o, "-", "-", data))
+		}
+	}
+	return cs
+}
+
+// genUnknownChains: several files in one stream, each with its own unknown message numbers and
+// unlisted fields of known messages (some shared with its neighbours, some not, some files with none
+// at all), decoded by DecodeChained with the options that produce the lists: the lists of every file
+// account for that file's records only.
+func genUnknownChains(r *rng, n int) CaseSet {
+	cs := CaseSet{Name: "chains-with-unknown-items"}
+	for i := 0; i < n; i++ {
+		var chain []byte
+		nf := 2 + r.intn(3)
+		shared := 61000 + r.intn(1000)
+		for f := 0; f < nf; f++ {
+			var b recs
+			b.Write(fileIdRecs(4, byte(r.intn(2))))
+			if !r.chance(20) { // some files have no unknown items at all
+				for j := 0; j < 1+r.intn(4); j++ {
+					g := 62000 + 100*f + r.intn(5) // this file's own numbers
+					if r.chance(30) {
+						g = shared + r.intn(3) // numbers several files use
+					}
+					l := byte(1 + r.intn(15))
+					b.def(defn{local: l, global: uint16(g), fields: []fdef{{byte(j), 1, 0x02}}})
+					for q := 0; q < 1+r.intn(3); q++ {
+						b.data(l, []byte{byte(q)})
+					}
+				}
+				if r.chance(70) {
+					// a known message with unlisted fields, different ones per file
+					fs := []fdef{{3, 1, 0x02}, {byte(200 + 10*f + r.intn(4)), 1, 0x02}}
+					if r.chance(40) {
+						fs = append(fs, fdef{byte(240 + r.intn(3)), 2, 0x84})
+					}
+					b.def(defn{local: 0, global: 20, fields: fs})
+					for q := 0; q < 1+r.intn(3); q++ {
+						p := []byte{70, 1}
+						if len(fs) == 3 {
+							p = append(p, 2, 3)
+						}
+						b.data(0, p)
+					}
+				}
+			}
+			chain = append(chain, frame(b.Bytes(), randFrame(r))...)
+		}
+		for _, o := range []string{"011", "111", "001", "010"} {
+			cs.Cases = append(cs.Cases, decCase("chained", o, "-", "-", chain))
 		}
 	}
 	return cs
